@@ -1,21 +1,27 @@
 (* C09  MPS output reads back as the same problem, and LP and MPS renderings agree.
-   Level reached: line-level model of the MPS WRITER (IO/MpsWrite.v, compared byte for byte with mpq_QSwrite_prob(.., "MPS")
-   on every file written in the run) + proof that the reader-side semantics already modelled, applied to the written
-   sections, gives back the problem + exploration of the real round trip with the verified oracle.
-   PROVED (record level, all problems): C09_mps_sections_roundtrip_partial - the ROWS / COLUMNS (with INTORG / INTEND
-   markers) / RHS / RANGES / BOUNDS sections the writer model builds denote, under the reader's rules (RHS default 0,
-   transferRanges for a RANGES entry, the bound setters + ILLraw_fill_in_bounds for FX FR MI LO PL UP, markers for
-   integrality), the problem written: same columns in order with the same entries, objective, bounds and marks, same
-   used rows with sense, right hand side and range, every number equal as a rational; rows without entries dropped.
-   Its parts: C09_mps_bounds_records, C09_mps_rows, C09_mps_markers.  Also as before: numbers, ranges_semantics,
-   bounds_roundtrip, the oracle.
-   C09_write_then_transfer_id / C09_zero_range_lost_refuted describe the writer as first found (an R row with range 0
-   lost its RANGES entry, repaired in /repo 6798a87); IO/MpsWrite.range_entry models the repaired writer.
-   "partial": there is no model of the MPS READER's tokenizer (fields, set names, section state machine, number
-   scanning inside records): the statement is about sections as data, not about read_mps (write_mps P).
+   Level reached: proof.  Line-level models of the MPS WRITER (IO/MpsWrite.v, compared byte for byte with
+   mpq_QSwrite_prob (.., "MPS") on every file written in the run) and of the MPS READER (IO/MpsRead.v: ILLmps_next_line /
+   next_field / next_coef / next_bound, '*' and '$' comments, the section state machine of ILLread_mps, ROWS, COLUMNS with
+   INTORG / INTEND / SOS markers, RHS, RANGES, BOUNDS with UP LO FX FR MI PL BV LI UI, OBJSENSE, OBJNAME, REFROW, ENDATA, the
+   blank-set-name heuristic ILLmps_possibly_blank_name as the code has it, mps_fill_in and the conversion checks;
+   compared with mpq_QSget_prob (.., "MPS") on rendered, token-mutated and library-written files in C10).
+   PROVED, no size bound: C09_mps_roundtrip - for every column-wise problem satisfying wf_mps (the precondition of C08/C09,
+   names that are blank-free words, no '$' in front of a column that gets a BOUNDS record, and: when a row is called RHS /
+   RANGE (a column BOUND), no row (column) occurring in that section starts like a number) the written file is accepted by
+   the reader and read_mps (write_mps P) is equiv_by_name to P; C09_mps_roundtrip_native: column by column and used row by
+   used row, ranged rows come back as ranged rows (native RANGES representation), every number equal as a rational;
+   C09_mps_roundtrip_bytes: the same on the bytes of the file.  Layers: fields (C09_mps_field, C09_mps_number),
+   records (C09_mps_columns_record, C09_mps_rhs_record, C09_mps_bounds_record), sections (IO/MpsSections.v), file.
+   PROVED for the repaired writer (set names made unique, notes/repo_patches/mps_setname_clash.diff): C09_mps_roundtrip_fixed
+   needs no hypothesis on the set names.
+   REFUTED without the set-name hypothesis: C09_mps_setname_clash_refuted (column BOUND + column 2: the bound of "2" lands
+   on "BOUND", silently), C09_mps_setname_clash_rhs_refuted - replayed on the library in checks/C09.py (open finding
+   F-io-mps-setname-clash-C09; repair in notes/repo_patches/mps_setname_clash.diff).
+   C09_wf_test_sound: the executable test wf_mpsb evaluated by the check on every generated problem implies wf_mps.
+   C09_mps_sections_roundtrip_partial is the record-level statement of round 2 (kept; superseded by C09_mps_roundtrip).
    lp_mps_agree is evaluated as the executable comparison on every generated problem. *)
-From QSX Require Import LP.User IO.Num IO.NumSound IO.Bounds IO.Equiv IO.Ranges IO.LpWrite IO.MpsWrite.
-From Coq Require Import List QArith.
+From QSX Require Import LP.User IO.Num IO.NumSound IO.Bounds IO.Equiv IO.Ranges IO.Lex IO.LpWrite IO.LpRead IO.LpTok IO.LpBytes IO.LpNames IO.MpsWrite IO.MpsRead IO.MpsTok IO.MpsEquiv IO.MpsRoundtrip IO.MpsWf.
+From Coq Require Import List Ascii String QArith.
 Import ListNotations.
 Local Open Scope Q_scope.
 
@@ -90,3 +96,107 @@ Print Assumptions C09_mps_sections_roundtrip_partial.
 (* the hypotheses are satisfiable (integer column with lower 0 and no upper bound, ranged row, unused row) *)
 Example C09_mps_wf_satisfiable : exists P : mlp, cols_wf P /\ rows_wf P.
 Proof. eexists. exact (proj2 write_mps_example). Qed.
+
+(* ---- the MPS reader model and the file-level round trip ------------------------------------------------------------------ *)
+
+Theorem C09_mps_roundtrip :
+  forall M, 0 < M -> forall P, wf_mps M P ->
+  exists P', read_mps true M (write_mps M P) = Some P' /\ equiv_by_name (mlp_to_nlp P) (mlp_to_nlp P') = true.
+Proof. exact mps_roundtrip. Qed.
+Print Assumptions C09_mps_roundtrip.
+
+(* native RANGES representation: ranged rows come back as ranged rows *)
+Theorem C09_mps_roundtrip_native :
+  forall M, 0 < M -> forall P, wf_mps M P ->
+  exists P', read_mps true M (write_mps M P) = Some P' /\ m_max P' = m_max P /\ m_objname P' = m_objname P /\
+             Forall2 col_rel (m_cols P) (m_cols P') /\ Forall2 row_same_q (filter (row_used (m_cols P)) (m_rows P)) (m_rows P').
+Proof. exact mps_roundtrip_strong. Qed.
+Print Assumptions C09_mps_roundtrip_native.
+
+Theorem C09_mps_roundtrip_bytes :
+  forall M P, 0 < M -> wf_mps M P -> Forall line_ok (write_mps M P) ->
+  exists P', read_mps true M (split_lines (file_bytes (write_mps M P))) = Some P' /\ equiv_by_name (mlp_to_nlp P) (mlp_to_nlp P') = true.
+Proof. exact mps_roundtrip_bytes. Qed.
+Print Assumptions C09_mps_roundtrip_bytes.
+
+Theorem C09_wf_test_sound : forall M P, wf_mpsb M P = true -> wf_mps M P.
+Proof. exact wf_mpsb_sound. Qed.
+Print Assumptions C09_wf_test_sound.
+
+(* the hypotheses are satisfiable: ranged row, integer column, unused row, a column called RHS and a row called BOUND *)
+Example C09_mps_roundtrip_satisfiable : exists P, wf_mps 1000 P.
+Proof. exists mps_example. exact (proj1 wf_mps_example). Qed.
+
+(* without the hypothesis on the set names the statement is false: the witnesses below satisfy every other hypothesis *)
+Theorem C09_mps_setname_clash_refuted :
+  wf_coreb 1000 mps_clash = true /\ setnames_okb 1000 mps_clash = false /\
+  exists P', read_mps true 1000 (write_mps 1000 mps_clash) = Some P' /\
+             equiv_by_name (mlp_to_nlp mps_clash) (mlp_to_nlp P') = false /\
+             map (fun c => (mc_name c, mc_up c)) (m_cols P') = [(s2l "BOUND"%string, 2 / 1); (s2l "2"%string, 1000)].
+Proof. exact mps_roundtrip_setname_clash_refuted. Qed.
+Print Assumptions C09_mps_setname_clash_refuted.
+
+Theorem C09_mps_setname_clash_rhs_refuted :
+  wf_coreb 1000 (mps_clash_rhs 10) = true /\ setnames_okb 1000 (mps_clash_rhs 10) = false /\
+  (exists P', read_mps true 1000 (write_mps 1000 (mps_clash_rhs 10)) = Some P' /\
+              equiv_by_name (mlp_to_nlp (mps_clash_rhs 10)) (mlp_to_nlp P') = false /\
+              map (fun r => (mr_name r, mr_rhs r)) (m_rows P') = [(s2l "RHS"%string, 10 / 1); (s2l "1"%string, 0)]) /\
+  wf_coreb 1000 (mps_clash_rhs 0) = true /\ read_mps_res true 1000 (write_mps 1000 (mps_clash_rhs 0)) = MErr ERhsNotRow.
+Proof. exact mps_roundtrip_setname_clash_rhs_refuted. Qed.
+Print Assumptions C09_mps_setname_clash_rhs_refuted.
+
+(* ---- layers: fields, numbers, records ----------------------------------------------------------------------------------------- *)
+
+(* ILLmps_next_field on blanks + word + (end of line | blank ...): the word, the pointer one byte behind it; a '$' does not
+   start a comment before the second field has been read *)
+Theorem C09_mps_field :
+  forall t b w rest, t_cur t = b ++ w ++ rest -> all_blank b -> word w -> eow rest -> (no_dollar w \/ (t_fnum t < 2)%nat) ->
+  mnext_field t = (mk_tk (tl rest) (t_line t) (t_key t) w (S (t_fnum t)), true).
+Proof. exact mnext_field_word. Qed.
+Print Assumptions C09_mps_field.
+
+(* ILLmps_next_coef reads what print_num printed as a rational equal to it (rr v == v, C08_coefficient_value) *)
+Theorem C09_mps_number :
+  forall t b v rest, t_cur t = b ++ print_num v ++ rest -> all_blank b -> stops rest ->
+  get_double true t = DVal (mk_tk rest (t_line t) (t_key t) (t_fld t) (S (t_fnum t))) (rr v).
+Proof. exact get_double_num. Qed.
+Print Assumptions C09_mps_number.
+
+Theorem C09_mps_columns_record :
+  forall M cn rn v x, word cn -> word rn -> has_marker cn = false -> has_marker rn = false ->
+  has_row rn x = true -> x_active x = ACols -> x_sosvar x = false ->
+  exists t, scan_line (ent_line cn rn v) = LTok t /\ t_key t = [] /\ line_in_section true M t x = MOk (ent_effect cn rn v x).
+Proof. exact ent_record. Qed.
+Print Assumptions C09_mps_columns_record.
+
+(* an RHS record under the heuristic, for any set name sn the writer may use: harmless when sn is no row name or the row
+   does not start like a number *)
+Theorem C09_mps_rhs_record :
+  forall M sn rn v x row, word sn -> word rn -> x_active x = ARhs ->
+  (x_rhsname x = None \/ x_rhsname x = Some (Some sn)) ->
+  find_row rn x = Some row -> xw_rhsind row = false -> xw_sense row <> None ->
+  (has_row sn x = true -> numlike rn = false) ->
+  exists t, scan_line (set_line sn rn v) = LTok t /\ t_key t = [] /\ line_in_section true M t x = MOk (rhs_effect sn rn v x).
+Proof. exact rhs_record. Qed.
+Print Assumptions C09_mps_rhs_record.
+
+Theorem C09_mps_bounds_record :
+  forall M bn r cn x, word bn -> word cn -> no_dollar cn -> x_active x = ABounds ->
+  (x_bndname x = None \/ x_bndname x = Some (Some bn)) ->
+  has_col cn x = true -> (has_col bn x = true -> numlike cn = false) ->
+  exists t, scan_line (mrec_line_gen bn (r, cn)) = LTok t /\ t_key t = [] /\ line_in_section true M t x = MOk (bnd_effect M bn r cn x).
+Proof. exact bnd_record. Qed.
+Print Assumptions C09_mps_bounds_record.
+
+(* ---- the repaired writer (notes/repo_patches/mps_setname_clash.diff): the set names are made unique against the row
+   names and the objective name (RHS, RANGES) and the column names (BOUNDS), as the writer already does for the objective
+   name it invents; then the heuristic of the reader is harmless and the hypothesis on the set names is not needed ---------- *)
+Theorem C09_mps_roundtrip_fixed :
+  forall M, 0 < M -> forall P, wf_core M P ->
+  exists P', read_mps true M (write_mps_fixed M P) = Some P' /\ equiv_by_name (mlp_to_nlp P) (mlp_to_nlp P') = true.
+Proof. exact mps_roundtrip_fixed. Qed.
+Print Assumptions C09_mps_roundtrip_fixed.
+
+Theorem C09_wf_core_test_sound : forall M P, wf_coreb M P = true -> wf_core M P.
+Proof. exact wf_coreb_sound. Qed.
+Print Assumptions C09_wf_core_test_sound.
